@@ -653,6 +653,10 @@ class ProductState:
             assert isinstance(to, jnp.ndarray)
             operation.compute_dimensions(0, to)
         elif isinstance(operation._operation_type, CompositeOperationType):
+            # The expected state types live on the (shared) enum member and are
+            # overwritten whenever another Expression operation is constructed:
+            # restore the ones this operation was created with
+            operation._operation_type.update(**operation.kwargs)
             assert len(states) == len(
                 operation._operation_type.expected_base_state_types
             )
